@@ -5,6 +5,7 @@ package main
 // and SpendPolicy.Address.
 
 import (
+	"bytes"
 	"encoding/json"
 	"fmt"
 	"math/rand"
@@ -34,13 +35,17 @@ type witJSON struct {
 	Sigs   [][]int `json:"sigs"`
 	Pres   [][]int `json:"pres"`
 	Ctxs   []struct{ H, T int }
-	NPols  int `json:"npols"`
-	NItems int `json:"nitems"`
+	NPols  int      `json:"npols"`
+	NItems int      `json:"nitems"`
+	BigU   []string `json:"bigu"` // members of the value classes (Policy.tla: BigU64, BigI64, NegI64)
+	BigT   []string `json:"bigt"`
+	NegT   []string `json:"negt"`
 }
 
 // space is the output of one TLC run of PolicyMC.
 type space struct {
-	name string
+	name    string
+	numeric bool // the family "num": parameters at the extremes of their machine types
 	wit  witJSON
 	rows []rowJSON
 }
@@ -71,6 +76,9 @@ func parseSpace(name string, res *vlib.TLCResult) (*space, error) {
 	if !gotWit || len(sp.wit.Sigs) == 0 || len(sp.wit.Pres) == 0 || len(sp.wit.Ctxs) == 0 {
 		return nil, fmt.Errorf("no witness alphabet printed")
 	}
+	if err := checkClassTables(sp.wit.BigU, sp.wit.BigT, sp.wit.NegT); err != nil {
+		return nil, err
+	}
 	if len(sp.rows) != sp.wit.NItems {
 		return nil, fmt.Errorf("%d rows printed, %d items announced", len(sp.rows), sp.wit.NItems)
 	}
@@ -100,10 +108,30 @@ type stats struct {
 	envUsed       map[int]int64
 	lockFlip      int64 // policies whose accept set differs between two contexts
 	samples       int
+	// numeric extremes (numLabels) -> executed Verify cases [accepted, rejected], all agreeing with TLC
+	num         map[string]*[2]int64
+	numCases    int64 // Verify executions on policies with an instantiated value class
+	numReplays  int64 // (policy, context, environment, class member) replays of rows of the numeric family
+	consNum     map[string]*[2]int64
+	consNumRows int64
+}
+
+func bump(m map[string]*[2]int64, k string, acc bool, n int64) {
+	v := m[k]
+	if v == nil {
+		v = &[2]int64{}
+		m[k] = v
+	}
+	if acc {
+		v[0] += n
+	} else {
+		v[1] += n
+	}
 }
 
 func newStats() *stats {
-	return &stats{acceptKind: map[string]int64{}, rejectKind: map[string]int64{}, rootKind: map[string]int64{}, ctxUsed: map[int]int64{}, envUsed: map[int]int64{}}
+	return &stats{acceptKind: map[string]int64{}, rejectKind: map[string]int64{}, rootKind: map[string]int64{}, ctxUsed: map[int]int64{}, envUsed: map[int]int64{},
+		num: map[string]*[2]int64{}, consNum: map[string]*[2]int64{}}
 }
 
 // the case a worker is executing (for the watchdog)
@@ -122,6 +150,7 @@ type verifyCase struct {
 	Sigs   []int  `json:"sigs"`
 	Pres   []int  `json:"pres"`
 	Garb   []int  `json:"garbage"`
+	Inst   int    `json:"class_member"` // which member of BIG / NEG (B, N in the term) was instantiated
 	Want   bool   `json:"spec_accepts"`
 	Got    string `json:"real_result"`
 	Real   string `json:"real_policy,omitempty"`
@@ -143,7 +172,10 @@ func runVerify(p types.SpendPolicy, h uint64, t time.Time, sh types.Hash256, sig
 }
 
 func (vc *verifyCase) run(envs []*env) (ok bool, errText string, panicked bool) {
-	e := envs[vc.Env]
+	if vc.Env < 0 || vc.Env >= len(envs) || vc.Inst < 0 || vc.Inst >= nInst {
+		return false, "bad environment or class member", true
+	}
+	e := envs[vc.Env].withInst(vc.Inst)
 	n, err := parseTerm(vc.Policy)
 	if err != nil {
 		return false, err.Error(), true
@@ -296,6 +328,48 @@ func (st *stats) merge(o *stats) {
 	for k, v := range o.envUsed {
 		st.envUsed[k] += v
 	}
+	st.numCases += o.numCases
+	st.numReplays += o.numReplays
+	for k, v := range o.num {
+		bump(st.num, k, true, v[0])
+		bump(st.num, k, false, v[1])
+	}
+}
+
+// combo is one concretisation of a row: an environment with the value classes instantiated.
+type combo struct {
+	e       *env
+	primary bool // first concretisation of the row (row-level statistics are counted once)
+	newInst bool // first environment for this class member (distinct concrete policy)
+}
+
+// rowCombos: ordinary rows are replayed in one random environment. Rows of the numeric family are
+// replayed in environment 0 (heights and counts of the model ARE the real ones: 0 is 0) and in one
+// other environment; if the policy has parameters of a value class, once for EVERY member of the
+// class that is valid in the environment (environment 0 takes all of them).
+func rowCombos(sp *space, n, adTerm *node, envs []*env, r *rand.Rand) []combo {
+	if !sp.numeric {
+		return []combo{{envs[r.Intn(len(envs))], true, true}}
+	}
+	es := []*env{envs[0], envs[1+r.Intn(len(envs)-1)]}
+	var u classUse
+	n.classes(&u, true)
+	adTerm.classes(&u, true)
+	var out []combo
+	seen := map[int]bool{}
+	for _, e := range es {
+		for k := 0; k < nInst; k++ {
+			if !u.any() && k > 0 {
+				break
+			}
+			if u.any() && !(e.validInst(n, k) && e.validInst(adTerm, k)) {
+				continue
+			}
+			out = append(out, combo{e.withInst(k), len(out) == 0, !seen[k]})
+			seen[k] = true
+		}
+	}
+	return out
 }
 
 func replayRow(c *vlib.Ctx, sp *space, ri int, envs []*env, st *stats, fl *inflight, r *rand.Rand, nw, np int, nbS, nbP [][]int) {
@@ -314,16 +388,46 @@ func replayRow(c *vlib.Ctx, sp *space, ri int, envs []*env, st *stats, fl *infli
 		c.Infra("row %d of %s: height outside the mapped range: %s", ri, sp.name, row.P)
 		return
 	}
-	e := envs[r.Intn(len(envs))]
-	st.envUsed[e.id]++
+	var u classUse
+	n.classes(&u, true)
+	if u.any() && !sp.numeric {
+		c.Infra("row %d of %s: value class outside the numeric family: %s", ri, sp.name, row.P)
+		return
+	}
+	combos := rowCombos(sp, n, adTerm, envs, r)
+	if u.any() && len(combos) < nInst {
+		c.Infra("row %d of %s: only %d concretisations of %s", ri, sp.name, len(combos), row.P)
+		return
+	}
+	for _, cb := range combos {
+		replayRowIn(c, sp, ri, n, adTerm, envs, cb, st, fl, r, nw, np, nbS, nbP)
+	}
+}
+
+func replayRowIn(c *vlib.Ctx, sp *space, ri int, n, adTerm *node, envs []*env, cb combo, st *stats, fl *inflight, r *rand.Rand, nw, np int, nbS, nbP [][]int) {
+	row := sp.rows[ri]
+	e := cb.e
 	kinds := map[string]bool{}
 	n.kinds(kinds)
-	st.rootKind[rootClass(n)]++
-	if kinds["opaque"] {
-		st.opaqueRows++
+	var revealed classUse
+	n.classes(&revealed, false)
+	classKey := ""
+	if revealed.any() {
+		classKey = e.classKey(n, "")
 	}
-	if n.K == "uc" {
-		st.ucRows++
+	labels := map[string]bool{}
+	if sp.numeric {
+		e.numLabels(n, labels)
+	}
+	if cb.primary {
+		st.envUsed[e.id]++
+		st.rootKind[rootClass(n)]++
+		if kinds["opaque"] {
+			st.opaqueRows++
+		}
+		if n.K == "uc" {
+			st.ucRows++
+		}
 	}
 	var pol types.SpendPolicy
 	if pan, val := vlib.Recover(func() { pol = e.policy(n) }); pan {
@@ -359,6 +463,18 @@ func replayRow(c *vlib.Ctx, sp *space, ri int, envs []*env, st *stats, fl *infli
 		}
 	}
 
+	// ---- parameters at machine size: the policy that comes back from its wire form is the same policy ----
+	var back *types.SpendPolicy
+	if revealed.any() && e.tUnit >= time.Second {
+		enc := encodePolicy(pol)
+		if b, err := decodePolicy(enc); err != nil || !bytes.Equal(encodePolicy(b), enc) || b.Address() != addr {
+			c.Violation("num-codec:"+classKey, fmt.Sprintf("policy %s = %s does not survive its wire form (decode error %v)", row.P, pol.String(), err),
+				map[string]any{"kind": "codec", "policy_term": row.P, "env": e.id, "class_member": e.inst, "real_policy": pol.String()})
+		} else {
+			back = &b
+		}
+	}
+
 	// ---- verdicts ----
 	g := []int{r.Intn(64), r.Intn(64), r.Intn(64), r.Intn(64), r.Intn(64), r.Intn(64)}
 	accSets := make([]map[int]bool, len(row.Rows))
@@ -368,7 +484,12 @@ func replayRow(c *vlib.Ctx, sp *space, ri int, envs []*env, st *stats, fl *infli
 			return
 		}
 		mc := sp.wit.Ctxs[cr.C-1]
-		st.ctxUsed[cr.C]++
+		if cb.primary {
+			st.ctxUsed[cr.C]++
+		}
+		if sp.numeric {
+			st.numReplays++
+		}
 		acc := map[int]bool{}
 		for _, w := range cr.Acc {
 			acc[w] = true
@@ -378,13 +499,16 @@ func replayRow(c *vlib.Ctx, sp *space, ri int, envs []*env, st *stats, fl *infli
 		near := map[int]bool{}
 		for w := 0; w < nw; w++ {
 			si, pi := w/np, w%np
-			vc := verifyCase{Kind: "verify", Policy: row.P, Env: e.id, H: mc.H, T: mc.T, Sigs: sp.wit.Sigs[si], Pres: sp.wit.Pres[pi], Garb: g, Want: acc[w]}
+			vc := verifyCase{Kind: "verify", Policy: row.P, Env: e.id, H: mc.H, T: mc.T, Sigs: sp.wit.Sigs[si], Pres: sp.wit.Pres[pi], Garb: g, Inst: e.inst, Want: acc[w]}
 			fl.desc.Store(vc)
 			fl.since.Store(time.Now().UnixNano())
 			sigs, pres := e.witness(vc.Sigs, vc.Pres, g)
 			got, errText, pan := runVerify(pol, h, t, e.sigHash, sigs, pres)
 			fl.since.Store(0)
 			st.cases++
+			for l := range labels {
+				bump(st.num, l, acc[w], 1) // executed; counted under the verdict of the specification
+			}
 			if pan {
 				vc.Got = errText
 				vc.run(envs)
@@ -404,11 +528,26 @@ func replayRow(c *vlib.Ctx, sp *space, ri int, envs []*env, st *stats, fl *infli
 					vc.Got = "rejected: " + errAgain
 					dir = "rejects-satisfied"
 				}
-				c.Violation("verify-"+dir+":"+rootClass(n),
-					fmt.Sprintf("policy %s, height %d, time %d, signatures %v, preimages %v: the specification says %v, SpendPolicy.Verify %s",
-						row.P, mc.H, mc.T, vc.Sigs, vc.Pres, map[bool]string{true: "satisfied", false: "not satisfied"}[acc[w]], vc.Got), vc)
+				key, inst := "verify-"+dir+":"+rootClass(n), ""
+				if ck := e.classKey(n, dir); ck != "" {
+					// a parameter at the size of its machine type: the class member is part of the key
+					key, inst = "num-verify-"+dir+":"+ck, " = "+vc.Real
+				}
+				c.Violation(key,
+					fmt.Sprintf("policy %s%s, height %d, time %d, signatures %v, preimages %v: the specification says %v, SpendPolicy.Verify %s",
+						row.P, inst, mc.H, mc.T, vc.Sigs, vc.Pres, map[bool]string{true: "satisfied", false: "not satisfied"}[acc[w]], vc.Got), vc)
 				continue
 			}
+			if revealed.any() {
+				st.numCases++
+			}
+			if back != nil {
+				if again, _, pan2 := runVerify(*back, h, t, e.sigHash, sigs, pres); again != got || pan2 {
+					c.Violation("num-codec-verdict:"+classKey, fmt.Sprintf("policy %s = %s: Verify accepts=%v, after encode/decode accepts=%v (signatures %v, preimages %v)", row.P, pol.String(), got, again, vc.Sigs, vc.Pres), vc)
+				}
+				st.cases++
+			}
+
 			if got {
 				st.accepts++
 				for k := range kinds {
@@ -446,10 +585,14 @@ func replayRow(c *vlib.Ctx, sp *space, ri int, envs []*env, st *stats, fl *infli
 		if len(near) == 0 {
 			near[0] = true // an unsatisfiable row counts once (with the empty witness assignment)
 		}
-		st.nontrivial += int64(len(near))
-		st.rowsReplayed++
+		if cb.newInst {
+			st.nontrivial += int64(len(near)) // the same row in a second environment is not counted again
+		}
+		if cb.primary {
+			st.rowsReplayed++
+		}
 	}
-	for i := 1; i < len(accSets); i++ {
+	for i := 1; i < len(accSets) && cb.primary; i++ {
 		if len(accSets[i]) != len(accSets[0]) {
 			st.lockFlip++
 			break
@@ -489,7 +632,7 @@ func replayRow(c *vlib.Ctx, sp *space, ri int, envs []*env, st *stats, fl *infli
 				}
 			}
 			for _, w := range try {
-				vc := verifyCase{Kind: "verify", Policy: hs, Env: e.id, H: mc.H, T: mc.T, Sigs: sp.wit.Sigs[w/np], Pres: sp.wit.Pres[w%np], Garb: g, Want: false}
+				vc := verifyCase{Kind: "verify", Policy: hs, Env: e.id, H: mc.H, T: mc.T, Sigs: sp.wit.Sigs[w/np], Pres: sp.wit.Pres[w%np], Garb: g, Inst: e.inst, Want: false}
 				fl.desc.Store(vc)
 				fl.since.Store(time.Now().UnixNano())
 				got, errText, pan := vc.run(envs)
